@@ -357,9 +357,10 @@ class Prop(Check):
         "Imp.C25_terminates",
     ]
     DRIVER = "Drivers/Imp.lean"
-    QUICK_CASES = 420
+    QUICK_CASES = 340
     THOROUGH_CASES = 7000
-    CASE_TIMEOUT = 20
+    CASE_TIMEOUT = 90
+    PROCS_THOROUGH = 4  # shared machine
     RULE = ("trees of 1..7 grammar files in nested directories with random import graphs (chains, diamonds, cycles, "
             "self-imports, repeated imports), overlapping rule names, unqualified / qualified / link references, abstract "
             "and single-reference rules, 1..5 model texts each; non-trivial = the grammars load, at least one reference "
@@ -462,7 +463,7 @@ class Prop(Check):
             direct = [nstr(f["ns"])] + [i for i in abs_imports(f) if i in fmap]
             for r in f["rules"]:
                 absr = is_abs_name(r["name"])
-                nrefs = rng.randint(1, 3) if absr else rng.weighted([(0, 2), (1, 4), (2, 4), (3, 2)])
+                nrefs = rng.weighted([(1, 4), (2, 3), (3, 2)]) if absr else rng.weighted([(0, 2), (1, 4), (2, 4), (3, 2)])
                 if r["name"] == "Main":
                     nrefs = max(nrefs, 2)
                 for _ in range(nrefs):
@@ -497,6 +498,22 @@ class Prop(Check):
                         ref = {"q": None, "n": rng.choice(cands)}
                     ref["how"] = "rule" if absr or ref["n"] in BASE or rng.chance(0.78) else "link"
                     r["refs"].append(ref)
+        if rng.chance(0.1):
+            # a single-reference rule (A: C;) whose target lives in an import of its own file: the
+            # importers of that file usually cannot see the target under that name
+            cands = []
+            for f in files[1:]:
+                own = [r["name"] for r in f["rules"]]
+                for i in abs_imports(f):
+                    if i in fmap and i != nstr(f["ns"]):
+                        for r in fmap[i]["rules"]:
+                            if r["name"] in COMMON and r["name"] not in own:
+                                cands.append((f, r["name"]))
+            if cands:
+                f, target = rng.choice(cands)
+                f["rules"] = [r for r in f["rules"] if r["name"] != "A0"]
+                f["rules"].append({"name": "A0", "refs": [{"q": None, "n": target, "how": "rule"}]})
+                shape += "+alias"
         return finish({"main": "m", "files": files, "shape": shape})
 
     def gen(self, rng, n, tier):
@@ -526,13 +543,31 @@ class Prop(Check):
                 yield finish({"main": "m", "files": files, "shape": "enum"})
 
     # --------------------------------------------------------------- impl
+    _hangs = [0]
+
     def impl(self, case):
+        """A case normally takes ~10 ms.  On the shared machine a process can be starved for tens of
+        seconds, so a slow case is retried once with a long limit before it is reported as a hang
+        (`load: Timeout`, which the model never predicts); after three real hangs in this worker the
+        short limit alone decides, so a tree that hangs everywhere still finishes."""
+        from harness.txutil import with_timeout
+
+        hang = {"other": "Timeout"}
+        r = with_timeout(lambda: self.impl_once(case), 8 if self._hangs[0] < 3 else 4)
+        if r == hang and self._hangs[0] < 3:
+            r = with_timeout(lambda: self.impl_once(case), 45)
+            if r == hang:
+                self._hangs[0] += 1
+        return {"load": "Timeout", "opened": []} if r == hang else r
+
+    def impl_once(self, case):
         use_repo()
         import textx
         from textx import metamodel_from_file
         from textx.exceptions import TextXError, TextXSemanticError, TextXSyntaxError
 
-        tmp = os.path.realpath(tempfile.mkdtemp(prefix="c25_"))
+        shm = "/dev/shm"  # scratch files in memory when possible (outside /repo and /verif either way)
+        tmp = os.path.realpath(tempfile.mkdtemp(prefix="c25_", dir=shm if os.access(shm, os.W_OK) else None))
         opened = []
         real_open = builtins.open
 
@@ -880,15 +915,14 @@ class Prop(Check):
         for key, e in obs["resolved"].items():
             ns = key.split(":")[0]
             for t in e["cls"] + e["peg"]:
-                if t and "fqn" in t and not t["fqn"].startswith(ns + ".") or \
-                        t and "fqn" in t and t["fqn"].count(".") != ns.count(".") + 1:
+                if t and "fqn" in t and t["fqn"].rsplit(".", 1)[0] != ns:
                     cross = True
         main = case["main"]
 
         def has_imported(t):
             if not isinstance(t, list):
                 return False
-            if not t[0].startswith(main + "."):
+            if t[0].rsplit(".", 1)[0] != main:
                 return True
             return any(has_imported(x) for _, xs in t[1] for x in xs)
 
